@@ -233,7 +233,8 @@ PROPS = {
                        "max(10, native/2) <= len <= native; Key::compare_signatures is Ok iff the provided MAC is at least "
                        "min_mac_len long, not longer than the computed one and equal to its prefix, BadTrunc/BadSig otherwise; "
                        "Key::signature_slice in bounds; Time48::{from_u64, from_slice, into_octets} are the 48-bit big-endian codec "
-                       "and eq_fudged(a,b,f) <=> |a-b| <= f without overflow. One native replay computes the MAC of a BADTIME error "
+                       "and eq_fudged(a,b,f) <=> |a-b| <= f without overflow; ClientSequence::answer_subsequent (first statement, FRAGMENT) never "
+                       "lets the run of unsigned messages exceed 99 and ClientSequence::done is Ok iff the last message was signed. One native replay computes the MAC of a BADTIME error "
                        "response independently (regression guard for D9, a sample, not an obligation).",
         "not_covered": "MAC values and signed-octet layout (Variables::sign, SigningContext::*: to_be_bytes has no Verus specification and "
                        "the tsig feature is not built under Kani), end-to-end sign/verify, tamper rejection, TSIG record placement "
